@@ -12,8 +12,14 @@ import (
 	"os/exec"
 	"path/filepath"
 	"sort"
+	"strconv"
 	"strings"
 )
+
+func sanIsMethod(ce *ast.CallExpr, name string) bool {
+	se, ok := ce.Fun.(*ast.SelectorExpr)
+	return ok && se.Sel.Name == name
+}
 
 func init() { extractors = append(extractors, extractSanFilter) }
 
@@ -36,116 +42,123 @@ func parseAbs(path string) *ast.File {
 	return f
 }
 
-// methodsOn: distinct sorted names M of every call `recv.M(…)` inside n.
-func methodsOn(n ast.Node, recv string) []string {
-	set := map[string]bool{}
-	if n != nil && !isNilNode(n) {
-		ast.Inspect(n, func(x ast.Node) bool {
-			if ce, ok := x.(*ast.CallExpr); ok {
-				if se, ok := ce.Fun.(*ast.SelectorExpr); ok {
-					if id, ok := se.X.(*ast.Ident); ok && id.Name == recv {
-						set[se.Sel.Name] = true
+// sanMethodsOnDef: distinct sorted names M of every call `v.M(…)` inside n, v being a variable DEFINED (`v := …` /
+// `v = …` / `var v = …`) by a call for which isCtor holds; also the constructor calls themselves as "path.Name/arity".
+func sanMethodsOnDef(n ast.Node, isCtor func(ce *ast.CallExpr) (string, bool)) (ctors []string, methods []string) {
+	vars := map[string]bool{}
+	note := func(lhs []ast.Expr, rhs []ast.Expr) {
+		for i, r := range rhs {
+			if ce, ok := r.(*ast.CallExpr); ok && i < len(lhs) {
+				if _, ok := isCtor(ce); ok {
+					if id, ok := lhs[i].(*ast.Ident); ok {
+						vars[id.Name] = true
 					}
 				}
 			}
-			return true
-		})
+		}
 	}
-	res := []string{}
-	for k := range set {
-		res = append(res, k)
-	}
-	sort.Strings(res)
-	return res
-}
-
-// ctorCalls: printed calls `pkg.F(…)` with F starting with "NewTokenizer", in source order.
-func ctorCalls(n ast.Node, pkg string) []string {
-	res := []string{}
-	if n == nil || isNilNode(n) {
-		return res
-	}
+	ast.Inspect(n, func(x ast.Node) bool {
+		switch s := x.(type) {
+		case *ast.AssignStmt:
+			note(s.Lhs, s.Rhs)
+		case *ast.ValueSpec:
+			lhs := []ast.Expr{}
+			for _, id := range s.Names {
+				lhs = append(lhs, id)
+			}
+			note(lhs, s.Values)
+		case *ast.CallExpr:
+			if c, ok := isCtor(s); ok {
+				ctors = append(ctors, c)
+			}
+		}
+		return true
+	})
+	set := map[string]bool{}
 	ast.Inspect(n, func(x ast.Node) bool {
 		if ce, ok := x.(*ast.CallExpr); ok {
 			if se, ok := ce.Fun.(*ast.SelectorExpr); ok {
-				if id, ok := se.X.(*ast.Ident); ok && id.Name == pkg && strings.HasPrefix(se.Sel.Name, "NewTokenizer") {
-					res = append(res, strings.Join(strings.Fields(src(ce)), ""))
+				if id, ok := se.X.(*ast.Ident); ok && vars[id.Name] {
+					set[se.Sel.Name] = true
 				}
 			}
 		}
 		return true
 	})
-	return res
+	for k := range set {
+		methods = append(methods, k)
+	}
+	sort.Strings(methods)
+	return
 }
+
+const sanXHTML = "golang.org/x/net/html"
 
 func extractSanFilter() {
 	g := gen("SanFilter")
-	htm := parse("pkg/webui/sanitize/html.go")
-	imports := []string{}
-	if htm != nil {
-		for _, im := range htm.Imports {
-			p, _ := unq(im.Path)
-			if im.Name != nil {
-				p = im.Name.Name + "=" + p
-			}
-			imports = append(imports, p)
+	// html.go: sanitize.HTML with sanitizeStyleTags / styleTagFilter (and whatever helpers they are split into) inlined
+	pkg := sanLoadPkg("pkg/webui/sanitize", "sanitizeStyle")
+	g.def("filterSem", "List String", strList(pkg.sanPrint("HTML")), "semantic summary of sanitize.HTML (html.go), unexported helpers inlined: the token loop L1, the attribute loop L2, then the policy; <sanitizeStyle> is the function of cssSem")
+	ctorSet, methSet := map[string]bool{}, map[string]bool{}
+	pkg.sanAll("HTML", func(v *sanV) {
+		if v.k == "pcall" && v.p == sanXHTML && strings.HasPrefix(v.s, "NewTokenizer") {
+			ctorSet[v.p+"."+v.s+"/"+strconv.Itoa(len(v.a))] = true
 		}
-	}
-	sort.Strings(imports)
-	g.def("htmlImports", "List String", strList(imports), "imports of html.go, sorted (`html` must be golang.org/x/net/html, whose EscapeString escapes six bytes)")
-	var filter ast.Node = &ast.BlockStmt{}
-	body := ""
-	if f := fn(htm, "", "styleTagFilter"); f != nil {
-		filter = f
-		body = strings.Join(strings.Fields(src(f.Body)), " ")
-	}
-	g.def("filterTokenizerCtors", "List String", strList(ctorCalls(filter, "html")), "every html.NewTokenizer…(…) call of styleTagFilter")
-	g.def("filterTokenizerMethods", "List String", strList(methodsOn(filter, "z")), "methods called on the tokenizer `z` in styleTagFilter, sorted (an option setter — AllowCDATA, NextIsNotRawText, SetMaxBuf — would appear here)")
-	cases := []string{}
-	ast.Inspect(filter, func(x ast.Node) bool {
-		if sw, ok := x.(*ast.SwitchStmt); ok && sw.Tag != nil && src(sw.Tag) == "tt" {
-			for _, st := range sw.Body.List {
-				cc := st.(*ast.CaseClause)
-				if cc.List == nil {
-					cases = append(cases, "default")
-					continue
-				}
-				p := []string{}
-				for _, e := range cc.List {
-					p = append(p, src(e))
-				}
-				cases = append(cases, strings.Join(p, ","))
-			}
+		if v.k == "mcall" && v.a[0].k == "pcall" && v.a[0].p == sanXHTML && strings.HasPrefix(v.a[0].s, "NewTokenizer") {
+			methSet[v.s] = true
 		}
-		return true
 	})
-	g.def("filterCases", "List String", strList(cases), "case lists of `switch tt` in styleTagFilter, in source order")
-	g.def("filterSrc", "String", leanStr(body), "body of styleTagFilter, printed with single spaces")
-	tags := fn(htm, "", "sanitizeStyleTags")
-	g.def("sanitizeStyleTagsReturns", "List String", strList(returnsOf(tags)), "results of the return statements of sanitizeStyleTags")
+	keysOf := func(m map[string]bool) []string {
+		res := []string{}
+		for k := range m {
+			res = append(res, k)
+		}
+		sort.Strings(res)
+		return res
+	}
+	g.def("filterTokenizerCtors", "List String", strList(keysOf(ctorSet)), "the x/net/html tokenizer constructors sanitize.HTML reaches, as importpath.Name/arity")
+	g.def("filterTokenizerMethods", "List String", strList(keysOf(methSet)), "methods called on a tokenizer so constructed, anywhere under sanitize.HTML, sorted (an option setter — AllowCDATA, NextIsNotRawText, SetMaxBuf — would appear here)")
 
 	// bluemonday: its tokenizer
 	bmDir := modInfo("github.com/microcosm-cc/bluemonday", "Dir")
 	var bmCtors, bmMethods []string
 	if bmDir != "" {
 		if f := parseAbs(filepath.Join(bmDir, "sanitize.go")); f != nil {
-			bmCtors = ctorCalls(f, "html")
-			set := map[string]bool{}
-			for _, d := range f.Decls {
-				if fd, ok := d.(*ast.FuncDecl); ok && len(ctorCalls(fd, "html")) > 0 {
-					for _, m := range methodsOn(fd, "tokenizer") {
-						set[m] = true
+			alias := ""
+			for _, im := range f.Imports {
+				if p, _ := unq(im.Path); p == sanXHTML {
+					alias = "html"
+					if im.Name != nil {
+						alias = im.Name.Name
 					}
 				}
 			}
-			for k := range set {
-				bmMethods = append(bmMethods, k)
+			isCtor := func(ce *ast.CallExpr) (string, bool) {
+				se, ok := ce.Fun.(*ast.SelectorExpr)
+				if !ok {
+					return "", false
+				}
+				id, ok := se.X.(*ast.Ident)
+				if !ok || alias == "" || id.Name != alias || !strings.HasPrefix(se.Sel.Name, "NewTokenizer") {
+					return "", false
+				}
+				return sanXHTML + "." + se.Sel.Name + "/" + strconv.Itoa(len(ce.Args)), true
 			}
-			sort.Strings(bmMethods)
+			set := map[string]bool{}
+			for _, d := range f.Decls {
+				if fd, ok := d.(*ast.FuncDecl); ok {
+					c, m := sanMethodsOnDef(fd, isCtor)
+					bmCtors = append(bmCtors, c...)
+					for _, x := range m {
+						set[x] = true
+					}
+				}
+			}
+			bmMethods = keysOf(set)
 		}
 	}
-	g.def("policyTokenizerCtors", "List String", strList(bmCtors), "every html.NewTokenizer…(…) call of bluemonday's sanitize.go")
-	g.def("policyTokenizerMethods", "List String", strList(bmMethods), "methods called on `tokenizer` in the bluemonday function(s) constructing one, sorted")
+	g.def("policyTokenizerCtors", "List String", strList(bmCtors), "every x/net/html NewTokenizer… call of bluemonday's sanitize.go, as importpath.Name/arity")
+	g.def("policyTokenizerMethods", "List String", strList(bmMethods), "methods called in bluemonday's sanitize.go on a variable defined by such a call, sorted")
 
 	// x/net/html: options, raw-text elements, EscapeString
 	xDir := modInfo("golang.org/x/net", "Dir")
@@ -170,7 +183,7 @@ func extractSanFilter() {
 			sort.Strings(ctors)
 			if rs := fn(f, "Tokenizer", "readStartTag"); rs != nil {
 				ast.Inspect(rs, func(x ast.Node) bool {
-					if ce, ok := x.(*ast.CallExpr); ok && src(ce.Fun) == "z.startTagIn" {
+					if ce, ok := x.(*ast.CallExpr); ok && sanIsMethod(ce, "startTagIn") {
 						for _, a := range ce.Args {
 							if s, ok := unq(a); ok {
 								rawTags = append(rawTags, s)
@@ -217,7 +230,7 @@ func extractSanFilter() {
 	}
 	g.def("tokenizerMethods", "List String", strList(exported), "exported methods of x/net/html *Tokenizer (token.go), sorted: the option setters among them are AllowCDATA, NextIsNotRawText, SetMaxBuf")
 	g.def("tokenizerCtors", "List String", strList(ctors), "exported functions of token.go returning *Tokenizer, sorted")
-	g.def("tokenizerRawTags", "List String", strList(rawTags), "arguments of z.startTagIn in readStartTag: the elements whose content the tokenizer reads as raw text, sorted")
+	g.def("tokenizerRawTags", "List String", strList(rawTags), "arguments of the startTagIn calls in readStartTag: the elements whose content the tokenizer reads as raw text, sorted")
 	g.def("escapedChars", "List Nat", byteList(escChars), "the constant escapedChars of x/net/html escape.go, as bytes")
 	g.def("escapeCases", "List String", strList(escCases), "`case c: esc = s` clauses of x/net/html escape(), in source order, as \"c->s\"")
 }
